@@ -454,8 +454,9 @@ OwnCIDOnly == (last.op = "deliver" /\ last.acc) => recs[last.s].cid = "ok"
 
 PeerCIDOnEveryProtectedRecord == \A i \in 1..Len(emit) : emit[i].pcid = PeerCid
 
-\* nothing is ever emitted to an address other than rAddr except RRC messages
-OnlyRrcOffPath == \A i \in 1..Len(emit) : emit[i].dst # raddr => emit[i].kind \in {"chal", "resp"}
+\* application data never goes to an address other than rAddr (whatever else goes there - RRC messages - is
+\* limited by ThreeTimesBudget)
+NoAppDataOffPath == \A i \in 1..Len(emit) : emit[i].dst # raddr => emit[i].kind # "app"
 
 \* a datagram that names the CID of an identified, open connection reaches that connection from any source
 RoutedToOwner ==
